@@ -28,7 +28,9 @@ func init() {
 	schedScenarios["c07rest"] = schedScenario{Setup: c07SchedSetup}
 }
 
-var c07Endpoints = []string{"dtn://apps/e1", "dtn://apps/e2", "dtn://apps/nobody"}
+// e1, e2: registered by clients; "nobody": never registered, under a foreign node name; "own-nobody": never registered,
+// under this node's own name (the Core treats every endpoint of its own node as local)
+var c07Endpoints = []string{"dtn://apps/e1", "dtn://apps/e2", "dtn://apps/nobody", "dtn://node/nobody"}
 
 type c07Event struct {
 	Op string `json:"op"` // reg unreg fetch deliver mockreg mockunreg ping
@@ -47,7 +49,7 @@ func (e c07Event) String() string {
 	case "wsclose":
 		return fmt.Sprintf("ws-close(w%d)", e.K)
 	case "deliver":
-		return fmt.Sprintf("deliver(->%s)", []string{"e1", "e2", "nobody"}[e.E])
+		return fmt.Sprintf("deliver(->%s)", []string{"e1", "e2", "nobody", "own-nobody"}[e.E])
 	}
 	return e.Op
 }
@@ -75,7 +77,7 @@ func c07Alphabet() []c07Event {
 		}
 		out = append(out, c07Event{Op: "unreg", K: k}, c07Event{Op: "fetch", K: k})
 	}
-	for e := 0; e < 3; e++ {
+	for e := 0; e < 4; e++ {
 		out = append(out, c07Event{Op: "deliver", E: e})
 	}
 	out = append(out, c07Event{Op: "mockreg"}, c07Event{Op: "mockunreg"}, c07Event{Op: "ping"})
@@ -269,6 +271,17 @@ func c07Replay(t c07Task) (res c07Result) {
 			}
 			if delivered && len(recips) == 0 {
 				return fail("delivery-reported-without-hand-over", fmt.Sprintf("bundle %d for e%d: nobody is registered, yet a delivered report was sent", m.NBundle, e.E+1), i)
+			}
+			if e.E == 3 {
+				// addressed to this node, nobody registered: no hand-over took place, so the retention constraint stays
+				si := n.storeInfo(b.ID().Scrub())
+				held := false
+				for _, c := range si.Cons {
+					held = held || c == "local endpoint"
+				}
+				if !si.Known || !held {
+					return fail("retention-constraint-removed-without-hand-over", fmt.Sprintf("bundle %d for %s: no agent is registered for it, nothing was handed over, but the store says known=%v constraints=%v", m.NBundle, c07Endpoints[3], si.Known, si.Cons), i)
+				}
 			}
 			obs = append(obs, fmt.Sprintf("deliver%d->%v sent=%v rep=%v", m.NBundle, recips, sent, reports))
 		case "mockreg":
